@@ -1,75 +1,25 @@
 import Bmc.Driver.Prim
-import Bmc.Wire.Message
-import Bmc.Wire.V2Session
-import Bmc.Wire.Rakp2
-import Bmc.Wire.DeviceID
-import Bmc.Wire.V1Session
-import Bmc.Wire.Aes
-import Bmc.Crypto.AES
+/-! `dec` operations: decode `data` (a window with `tail` beyond its length) into a receiver that has
+    first decoded `prev` (empty = fresh receiver); print every exported field the way the Go harness's
+    reflection dump does (`Name=value`, declaration order, BaseLayer's Contents/Payload first). -/
 namespace Bmc.Driver
-open Bmc Bmc.Wire Bmc.Crypto
+open Bmc
 
-def hexOf (bs : Bytes) : String :=
-  if bs.isEmpty then "-" else
-  String.join (bs.map fun b => String.ofList [Nat.digitChar (b.toNat / 16), Nat.digitChar (b.toNat % 16)])
+abbrev DecFn := Bytes → Bytes → Bytes → String
 
-def showR (f : α → String) : R α → String
-  | .ok a => "ok " ++ f a | .err => "err" | .panic => "panic" | .overread => "overread"
+def decWith {X : Type} (fresh : X) (dec : X → GoSlice → R X) (sh : X → String) : DecFn := fun prev data tail =>
+  let p : R X := if prev.isEmpty then .ok fresh else dec fresh (GoSlice.ofBytes prev)
+  match p with
+  | .ok pv => showR sh (dec pv (GoSlice.window data tail))
+  | _ => "prev-failed"
 
-/-- toy integrity "hash" shared with the Go harness: 12 bytes, byte i = (sum of message + i * length) -/
-def toyMac (m : Bytes) : Bytes :=
-  let s : UInt8 := m.foldl (· + ·) 0
-  (List.range 12).map fun i => s + UInt8.ofNat (i * m.length)
-
-def realOps : Ops := { hmac := fun _ _ _ => [], encBlock := AES.encBlock, decBlock := AES.decBlock }
-
-def mkSlice (data tail : Bytes) : GoSlice := GoSlice.window data tail
-
-def showMessage (m : Message) : String :=
-  s!"fn={m.function.toNat} body={m.body.toNat} ent={m.enterprise} cmd={m.command.toNat} ra={m.remoteAddress.toNat} rl={m.remoteLUN.toNat} c1={m.checksum1.toNat} la={m.localAddress.toNat} ll={m.localLUN.toNat} seq={m.sequence.toNat} cc={m.completionCode.toNat} c2={m.checksum2.toNat} contents={hexOf m.contents} payload={hexOf m.payload}"
-
-def showV2 (v : V2Session) : String :=
-  s!"enc={bool v.encrypted} auth={bool v.authenticated} pt={v.payloadType.toNat} ent={v.enterprise} pid={v.payloadID} id={v.id} seq={v.sequence} len={v.length} pad={v.pad.toNat} sig={hexOf v.signature} contents={hexOf v.contents} payload={hexOf v.payload}"
-
-def showRakp2 (r : RAKP2) : String :=
-  s!"tag={r.tag.toNat} status={r.status.toNat} sid={r.consoleSessionID} rnd={hexOf r.bmcRandom} guid={hexOf r.bmcGUID} ac={hexOf r.authCode}"
-
-def showDev (g : GetDeviceIDRsp) : String :=
-  s!"id={g.id.toNat} sdrs={bool g.providesSDRs} rev={g.revision.toNat} avail={bool g.available} maj={g.majorFirmwareRevision.toNat} min={g.minorFirmwareRevision.toNat} imaj={g.majorIPMIVersion.toNat} imin={g.minorIPMIVersion.toNat} sup={g.support.toNat} man={g.manufacturer} prod={g.product} aux={hexOf g.aux}"
-
-def showV1 (v : V1Session) : String :=
-  s!"at={v.authType.toNat} seq={v.sequence} id={v.id} ac={hexOf v.authCode} len={v.length.toNat} contents={hexOf v.contents} payload={hexOf v.payload}"
-
-def showAes (a : AESLayer) : String := s!"iv={hexOf a.contents} payload={hexOf a.payload}"
-
-/-- `dec <layer> <variant> <prev> <tail> <data> [key]` — variant 0 = pinned tree, 1 = repaired -/
-def evalDec (args : List String) : String :=
-  match args with
-  | layer :: variant :: prevS :: tailS :: dataS :: rest =>
-    match parseHex prevS, parseHex tailS, parseHex dataS with
-    | some prev, some tail, some data =>
-      let fixed := variant == "1"
-      let d := mkSlice data tail
-      match layer with
-      | "message" => showR showMessage (Message.decodeGo (if fixed then 8 else 7) {} d)
-      | "v2" => showR showV2 (V2Session.decodeGo toyMac {} d)
-      | "rakp2" => showR showRakp2 (RAKP2.decodeGo fixed {} d)
-      | "deviceid" =>
-        let p : GetDeviceIDRsp := match GetDeviceIDRsp.decodeGo fixed {} (GoSlice.ofBytes prev) with
-          | .ok v => v | _ => {}
-        showR showDev (GetDeviceIDRsp.decodeGo fixed p d)
-      | "v1" =>
-        let p : V1Session := match V1Session.decodeGo fixed {} (GoSlice.ofBytes prev) with
-          | .ok v => v | _ => {}
-        showR showV1 (V1Session.decodeGo fixed p d)
-      | "aes" =>
-        match rest with
-        | [keyS] => match parseHex keyS with
-          | some key => showR showAes (AESLayer.decodeGo realOps key fixed {} d)
-          | none => "bad-op"
-        | _ => "bad-op"
-      | _ => "bad-op"
-    | _, _, _ => "bad-op"
-  | _ => "bad-op"
+def kvN (k : String) (n : Nat) : String := s!"{k}={n}"
+def kvB (k : String) (b : Bool) : String := s!"{k}={bool b}"
+def kvH (k : String) (bs : Bytes) : String := s!"{k}={hexOf bs}"
+def kvU (k : String) (b : UInt8) : String := s!"{k}={b.toNat}"
+def kvI (k : String) (i : Int) : String := s!"{k}={i}"
+/-- bit n of a flags byte -/
+def kvBit (k : String) (b : UInt8) (n : Nat) : String := s!"{k}={bool (b.toNat / 2 ^ n % 2 == 1)}"
+def fields (l : List String) : String := " ".intercalate l
 
 end Bmc.Driver
